@@ -9,7 +9,24 @@ use crate::Span;
 use crate::local::local_span_stack::LOCAL_SPAN_STACK;
 
 thread_local! {
-    static LOCAL_ID_GENERATOR: Cell<(u32, u32)> = Cell::new((rand::random(), 0))
+    static LOCAL_ID_GENERATOR: Cell<(u32, u32)> = Cell::new((random_without_thread_rng() as u32, 0))
+}
+
+/// Returns a random number without touching `rand`'s thread-local generator, which panics when
+/// it is used while the thread's local storage is being destroyed. Span ids are also generated
+/// in that phase, e.g. by spans created or dropped in the destructor of a user's thread-local.
+fn random_without_thread_rng() -> u64 {
+    use rand::TryRngCore;
+
+    rand::rngs::OsRng.try_next_u64().unwrap_or_else(|_| {
+        static FALLBACK: std::sync::atomic::AtomicU64 = std::sync::atomic::AtomicU64::new(0);
+        let nanos = std::time::SystemTime::now()
+            .duration_since(std::time::UNIX_EPOCH)
+            .map(|d| d.as_nanos() as u64)
+            .unwrap_or_default();
+        let count = FALLBACK.fetch_add(1, std::sync::atomic::Ordering::Relaxed);
+        (nanos ^ count.wrapping_mul(0x9E37_79B9_7F4A_7C15)) | 1
+    })
 }
 
 /// An identifier for a trace, which groups a set of related spans together.
@@ -92,7 +109,7 @@ impl SpanId {
 
                 SpanId(((prefix as u64) << 32) | (suffix as u64))
             })
-            .unwrap_or_else(|_| SpanId(rand::random()))
+            .unwrap_or_else(|_| SpanId(random_without_thread_rng() | 1))
     }
 }
 
